@@ -134,7 +134,7 @@ def deepen(results, t_end, ran_keys, max_rounds=3, growth=8.0, per_job_cap_s=600
             if 'error' in r or r.get('illegal') or not r.get('complete') or r.get('violations'):
                 continue
             j = r['job']
-            if j.P >= 99:
+            if j.P >= 99 or '--hb' in j.flags:
                 continue
             cost = max(r.get('wall', 0.05), 0.05) * growth
             if cost > min(left, per_job_cap_s) * 0.8:
@@ -314,7 +314,8 @@ def finish(prop, tier, level, results, skipped, t0, extra_cov=None, assumptions=
     execs = sum(r['execs'] for r in ok)
     det_checked = sum(r.get('determinism_checked', 0) for r in ok)
     det_bad = [r for r in ok if r.get('determinism_ok') is False]
-    capped = [r for r in ok if not r['complete'] and not r.get('bonus')]
+    racep = [r for r in ok if r['job'].note == 'race pass']
+    capped = [r for r in ok if not r['complete'] and not r.get('bonus') and r['job'].note != 'race pass']
     outcomes = set()
     per_prog_outcomes = 0
     for r in ok:
@@ -404,6 +405,10 @@ def finish(prop, tier, level, results, skipped, t0, extra_cov=None, assumptions=
         'violating_schedules_found': total_viol,
         'explanation': technique_note,
     }
+    if racep:
+        cov['race_pass'] = {'note': 'the scheduler interrupts threads only at atomic operations / futex calls / yields; unsynchronised plain accesses between them are caught by this separate stateless pass of the same programs under the happens-before monitor (P <= 1)',
+                            'programs': len(racep), 'programs_cut_by_time': len([r for r in racep if not r['complete']]),
+                            'executions': sum(r['execs'] for r in racep), 'schedule_tree_nodes': sum(r['states'] for r in racep)}
     if deepening:
         cov['iterated_bound'] = {'note': 'after the listed budgets completed, programs were re-explored with a larger preemption budget while tier time was left; '
                                          'a re-exploration cut by time leaves the base bound complete and is not counted in programs_capped', 'rounds': deepening}
